@@ -117,12 +117,26 @@ let c03 zh tys data =
 (* ---- C15 ---- *)
 let two64 = nh "10000000000000000"
 let n_lt a b = N.ltb a b
+(* inputs of 2^32 bytes and more are not materialised: the model's answer is what the decoding
+   theorems say about every such input - an accepting decoder consumed and reproduces the whole
+   string (canon, whole) - plus, from the model's size bounds (sizes_bound_encodings), a
+   rejection when the length lies outside [min, max] of the type *)
+let huge_expect tys head pad tail =
+  let t = ty_of tys in
+  let i = info t in
+  let hl s = if s = "-" then 0 else String.length s / 2 in
+  let total = N.add (n_of_int (hl head + hl tail)) (nh pad) in
+  let inside = not (n_lt total i.ti_min) && not (n_lt i.ti_max total) in
+  (if inside then "" else "res=ERR ") ^ "canon=1 whole=1"
+
 let c15 tys =
   let t = ty_of tys in
   let i = info t in
   let smax = spec_max_len t in
   let sfix = spec_is_fixed t in
-  let base = Printf.sprintf "fixed=%s size=%s min=%s max=%s"
+  (* inb / acc: every valid value's encoding lies within the bounds and is accepted
+     (sizes_bound_encodings, view_decode_encode) *)
+  let base = Printf.sprintf "inb=1 acc=1 fixed=%s size=%s min=%s max=%s"
       (show_bool i.ti_fixed) (hn i.ti_size) (hn i.ti_min) (hn i.ti_max) in
   if n_lt smax two64 then
     Printf.sprintf "%s spec_fixed=%s spec_size=%s spec_min=%s spec_max=%s" base
@@ -530,6 +544,7 @@ let dispatch set_cfg cur_h cur_zh (op : string) (args : string list) : string =
   | "c01", [cfg; t; v; route] -> set_cfg cfg; c01 !cur_h !cur_zh cfg t v route
   | "c02", [cfg; t; v] -> set_cfg cfg; c02 !cur_h !cur_zh t v
   | "c03", [t; data] -> set_cfg "sha"; c03 !cur_zh t data
+  | ("c03h" | "c10h"), [t; head; pad; tail] -> huge_expect t head pad tail
   | "c15", [t] -> c15 t
   | "merk", [cfg; count; limit; leaves] -> set_cfg cfg; c08_merk !cur_h !cur_zh count limit leaves
   | "c08", [cfg; t; v] -> set_cfg cfg; c08 !cur_h !cur_zh t v
